@@ -324,6 +324,27 @@ def guided_keep_going(rng, draw, first_illegal, is_close, streams, maxlen=16, p_
     return ops
 
 
+def guided_failing(rng, draw, first_illegal, is_close, streams, maxlen=16, p_legal=0.8, p_fail=0.2):
+    """A history in which some calls' *implementation* (the virtual <Step>Impl behind the public method) fails: as
+    guided_keep_going, and a call marked as failing is taken to change nothing when the model would have accepted it -
+    its step was not written / read.  Returns (ops, failing flags)."""
+    ops, acc, failing = [], [], []
+    for _ in range(maxlen):
+        cands = [near(rng, draw(rng), acc, streams) for _ in range(6)]
+        legal = [c for c in cands if first_illegal(acc + [c]) is None]
+        op = rng.choice(legal) if legal and rng.chance(p_legal) else rng.choice(cands)
+        if rng.chance(0.1):
+            op = [k for k in (["C"], ["CW"], ["CR"]) if is_close(k)][0]
+        fail = (not is_close(op)) and rng.chance(p_fail)
+        ops.append(op)
+        failing.append(fail)
+        if first_illegal(acc + [op]) is None and not fail:
+            acc.append(op)
+            if is_close(op):
+                break
+    return ops, failing
+
+
 def judge_keep_going(ops, outcomes, first_illegal, is_close, who):
     """outcomes[i]: True if call i returned normally, False if it raised.  Only 'must raise' is judged after the first
     rejection: a call the model rejects (relative to the calls that were accepted by model *and* implementation) must raise;
@@ -806,10 +827,23 @@ def model_task(task, ybin, root):
                     ops = [o for o in ops if not (o[0] == "RB" and not streams[o[1]])]
                     runs.append({"proto": proto.name, "op": "script", "input": 0 if cfmt == "binary" else 1, "script": [["mkR", cfmt]] + ops, "fmt": cfmt, "keep_going": True})
                     meta.append(("cpp_reader_keep_going", ops, None, None))
+                for h in range(6 if quick else 24):
+                    # implementation calls that fail (fault points in front of every <Step>Impl of the binary writer / reader)
+                    hr = pr.fork("cfail", h)
+                    for api_, draw_, model_, close_, mk_, inp_ in (("cpp_writer_failing_impl", draw_cpp_writer(streams), lambda o: cpp_writer_model(streams, o), "CW", "mkW", 0),
+                                                                ("cpp_reader_failing_impl", draw_cpp_reader(streams), cpp_reader_first_illegal(streams, counts), "CR", "mkR", 0)):
+                        ops, failing = guided_failing(hr.fork(api_), draw_, model_, lambda o, c=close_: o[0] == c, streams)
+                        keep = [j for j, o in enumerate(ops) if not (o[0] in ("WB", "E", "RB") and not streams[o[1]])]
+                        ops, failing = [ops[j] for j in keep], [failing[j] for j in keep]
+                        script = [[mk_, "faulty"]]
+                        for o, f in zip(ops, failing):
+                            script += ([["ARM"], o, ["DISARM"]] if f else [o])
+                        runs.append({"proto": proto.name, "op": "script", "input": inp_, "script": script, "fmt": "binary", "keep_going": True})
+                        meta.append((api_, ops, failing, None))
                 results = cm.run_plan([data, ndraw], runs, timeout=180)
                 for res, run_, (api, ops, exp, expect) in zip(results, runs, meta):
                     stats["runs"] += 1
-                    legal = True if api.endswith("_keep_going") else ((exp is None) if api == "cpp_writer" else all(v is not False for v in exp))
+                    legal = True if (api.endswith("_keep_going") or api.endswith("_failing_impl")) else ((exp is None) if api == "cpp_writer" else all(v is not False for v in exp))
                     stats[api + ("_legal" if legal else "_illegal")] = stats.get(api + ("_legal" if legal else "_illegal"), 0) + 1
                     if api == "cpp_reader" and any(v == UNSPEC for v in exp):  # noqa
                         stats["cpp_reader_unspecified_transition(not judged)"] = stats.get("cpp_reader_unspecified_transition(not judged)", 0) + 1
@@ -819,6 +853,23 @@ def model_task(task, ybin, root):
                         viols.append(({"class": "crashed_on_call_history", "api": api}, dict(doc(model, proto, task, api, ops, counts, res.get("stderr", "")[-300:]), format=run_["fmt"])))
                         continue
                     calls = res.get("calls", [])[1:]     # drop the constructor call
+                    if api.endswith("_failing_impl"):
+                        failing = exp
+                        stats["cpp_histories_with_failing_implementation_calls"] = stats.get("cpp_histories_with_failing_implementation_calls", 0) + 1
+                        script = run_["script"][1:]
+                        if len(calls) != len(script):
+                            continue                     # (the harness stopped early: nothing to judge)
+                        outc = [c["r"] != "exc" for c, sc in zip(calls, script) if sc[0] not in ("ARM", "DISARM")]
+                        injected = sum(1 for c in calls if "injected failure" in str(c.get("what", "")))
+                        stats["implementation_call_failures_injected"] = stats.get("implementation_call_failures_injected", 0) + injected
+                        if api == "cpp_writer_failing_impl":
+                            why = judge_keep_going(ops, outc, lambda o: cpp_writer_model(streams, o), lambda o: o[0] == "CW", "cpp writer")
+                        else:
+                            why = judge_keep_going(ops, outc, cpp_reader_first_illegal(streams, counts), lambda o: o[0] == "CR", "cpp reader")
+                        if why:
+                            viols.append(({"class": "step_counted_as_completed_although_its_implementation_failed", "api": api},
+                                          dict(doc(model, proto, task, api, ops, counts, why + " | failing calls: %s" % [j for j, f in enumerate(failing) if f]), format="binary", failing=failing)))
+                        continue
                     if api.endswith("_keep_going"):
                         stats["cpp_history_continued_after_rejection"] = stats.get("cpp_history_continued_after_rejection", 0) + 1
                         outc = [c["r"] != "exc" for c in calls]
@@ -898,6 +949,22 @@ def replay_doc(d, ybin, root):
                 why = "the stream written does not decode: %r" % (e,)
             return bool(why), why or "stream is well formed"
         cm = C.CppModel(model.dir)
+        if api.endswith("_keep_going") or api.endswith("_failing_impl"):
+            writer = api.startswith("cpp_writer")
+            failing = d.get("failing") or [False] * len(ops)
+            fmt_ = "faulty" if api.endswith("_failing_impl") else d.get("format", "binary")
+            script = [["mkW" if writer else "mkR", fmt_]]
+            for o, f in zip(ops, failing):
+                script += ([["ARM"], o, ["DISARM"]] if f else [o])
+            ndraw = codec.encode_ndjson(proto, ns, model.schema(proto), vals).encode("utf-8")
+            res = cm.run_plan([data, ndraw], [{"proto": proto.name, "op": "script", "input": 1 if (fmt_ == "ndjson" and not writer) else 0, "script": script, "keep_going": True}])[0]
+            calls = res.get("calls", [])[1:]
+            outc = [c["r"] != "exc" for c, sc in zip(calls, script[1:]) if sc[0] not in ("ARM", "DISARM")]
+            if writer:
+                why = judge_keep_going(ops, outc, lambda o: cpp_writer_model(streams, o), lambda o: o[0] == "CW", "cpp writer")
+            else:
+                why = judge_keep_going(ops, outc, cpp_reader_first_illegal(streams, counts), lambda o: o[0] == "CR", "cpp reader")
+            return bool(why), why or "agrees with the model"
         if api == "cpp_writer":
             exp = cpp_writer_model(streams, ops)
             script = [["mkW", d.get("format", "binary")]] + ops
@@ -928,7 +995,7 @@ def main():
                assumptions=["a C++ stream step is left when its end has been observed: a single read returned false or a batch read came back short of its capacity",
                             "python: every step needs at least one write call; a stream's iterable must be drained before the next read; close() ends a trailing stream"],
                replay_fn=replay_doc, quick_budget=140,
-               fault_keys=("py_reader_early_eof", "py_writer_failed_impl_call", "py_history_continued_after_rejection", "cpp_history_continued_after_rejection", "cpp_reader_early_eof", "mut_swap", "mut_drop", "mut_dup", "mut_retarget", "mut_early_close", "mut_insert", "mut_back", "mut_guided", "mut_none"))
+               fault_keys=("py_reader_early_eof", "py_writer_failed_impl_call", "py_history_continued_after_rejection", "cpp_history_continued_after_rejection", "cpp_histories_with_failing_implementation_calls", "implementation_call_failures_injected", "cpp_reader_early_eof", "mut_swap", "mut_drop", "mut_dup", "mut_retarget", "mut_early_close", "mut_insert", "mut_back", "mut_guided", "mut_none"))
 
 
 if __name__ == "__main__":
